@@ -6,6 +6,7 @@ import prun
 import vcommon
 from checks import pcommon
 from checks.c02 import order_cases
+from vcommon import Violation
 
 LEVEL = "exploration"
 PROPS = ["C03"]
@@ -29,7 +30,21 @@ def run(chk, tier, scale=1.0):
          pcommon.reload_jobs(b, chk.seed, PROPS, int((280 if tier == "quick" else 7000) * scale))
     for rs in vcommon.pmap(pcommon.script_worker, dj):
         prun.fold(chk, "C03", rs, crash_is_violation=True)
-    chk.rule = ("the C02 workload (all 120 arrival orders x service tables x reply policies x timeout / hurry-up positions x passwords) plus random multi-client "
+    # bursts: hundreds of clients in one write, judged when the daemon sleeps with its input drained (no hook, no deadline)
+    for r in vcommon.pmap(pcommon.burst_worker, _burst_jobs(b, chk, tier, scale)):
+        chk.add_case(r["hash"], r["nontrivial"])
+        chk.merge_counts(r["stats"])
+        if r.get("sample"):
+            chk.sample(r["sample"], limit=1)
+        for w in r["inconc"]:
+            chk.inconc(w)
+        for (p, rule, sig, text, wit) in r["viol"]:
+            if p == "C03":
+                chk.violation(Violation(p, rule, sig, text, wit))
+    chk.require("burst_verdicts_at_quiescence", 500 * min(1.0, scale))
+    chk.rule = ("bursts of 40-700 clients whose lines (a few bytes each) arrive in one write on the unhooked channel: when the daemon has drained its input and sleeps in "
+                "epoll_wait (read from /proc and the pipe), every one of them has its verdict; "
+                "the C02 workload (all 120 arrival orders x service tables x reply policies x timeout / hurry-up positions x passwords) plus random multi-client "
                 "histories weighted towards late, duplicate and unexpected replies, repeated passwords, unlinked notices and timeouts; after EVERY input line the monitor "
                 "asks of every open client: all required data (or H), no query unanswered (or timeout expired and no query sent since), no +! without account - "
                 "if so the verdict must have been issued in that very step; a daemon crash counts (every live client is stuck); "
@@ -43,5 +58,15 @@ def run(chk, tier, scale=1.0):
                         "the timeout hook runs the real handler; histories configure timeout 3600 so the real timer never fires on its own"]
 
 
+def _burst_jobs(b, chk, tier, scale):
+    return [dict(build=b, seed=chk.seed * 977 + k, n=[40, 120, 300, 700][k % 4], service=(k % 3 == 1)) for k in range(int((12 if tier == "quick" else 200) * scale) or 1)]
+
+
 def replay(chk, rep):
+    w = rep["witness"]
+    if w.get("burst"):
+        r = pcommon.burst_worker(dict(build=prun.build_daemon("c03-replay"), seed=w["seed"], n=w["n"], service=w["service"]))
+        for v in r["viol"]:
+            print(v[3])
+        return 1 if r["viol"] else 0
     return prun.replay_witness(chk, rep, PROPS)
